@@ -664,7 +664,7 @@ class Prov:
                 # structure-preserving wrappers over an aggregate: look through
                 self._root(t, path[1:], depth - 1, out) if len(path) > 1 else out.append((t, ()))
                 return
-        if k == 'param' and self.through_params and depth > 0 and (self.through_params is True or self.F.fns[t[1]].kind == 'Closure'):
+        if k == 'param' and self.through_params and depth > 0 and (self.through_params is True or self.F.fns[t[1]].kind == 'Closure' or (callable(self.through_params) and self.through_params(self.F.fns[t[1]]))):
             srcs = self.param_sources(t)
             if srcs:
                 for (src, steps) in srcs:
